@@ -49,3 +49,11 @@ pub fn c17e(){
         let ratio=crate::probe8::MAXREQ.load(Relaxed) as f64/f.len() as f64; if ratio>worst {worst=ratio;} n+=1; if k%6==0 { println!("  2^{} points, {} input bytes: largest request {} bytes, result {:?}",k,f.len(),crate::probe8::MAXREQ.load(Relaxed),res); } }
     println!("C17(e) files {} worst ratio {:.1}",n,worst);
 }
+pub fn c01roles(seed:u64){
+    let mut n=0; let mut mism=0;
+    for i in 0..20000u64 { let mut r=Rng(seed^i); let c=Cfg{dens:[0.3,0.7,1.0][(i%3) as usize]}; let s=gen_shape(5,&mut r,&c,3,6);
+        let mut shp=Cursor::new(Vec::new()); { let mut w=ShapeWriter::new(&mut shp); write_one(&mut w,&s).unwrap(); }
+        let back=ShapeReader::new(Cursor::new(shp.into_inner())).unwrap().read().unwrap();
+        if let (Shape::Polygon(a),Shape::Polygon(b))=(&s,&back[0]) { for (ra,rb) in a.rings().iter().zip(b.rings()){ n+=1; let oa=matches!(ra,PolygonRing::Outer(_)); let ob=matches!(rb,PolygonRing::Outer(_)); if oa!=ob { mism+=1; println!("RING {} {}", if oa {"O"} else {"I"}, ra.points().iter().map(|p|format!("{:016x}:{:016x}",p.x.to_bits(),p.y.to_bits())).collect::<Vec<_>>().join(",")); } } } }
+    eprintln!("rings {} role mismatches {}",n,mism);
+}
